@@ -210,7 +210,7 @@ def gen_cases(rng, nlists, njunk):
         else:
             args = [junk_value(rng), junk_value(rng)]
         cases.append(Case(name, mode, args, "junk"))
-    cases = corner_cases() + cases
+    cases = corpus_cases() + corner_cases() + cases
     # de-duplicate, keep order
     seen = set()
     out = []
@@ -219,6 +219,51 @@ def gen_cases(rng, nlists, njunk):
         if k not in seen:
             seen.add(k)
             out.append(cs)
+    return out
+
+
+def parse_value(t, i=0):
+    """canonical value text -> (V, next index)"""
+    ch = t[i]
+    if ch == "N":
+        return V("num", bits2f(int(t[i + 1:i + 17], 16))), i + 17
+    if ch in "TF":
+        return B(ch == "T"), i + 1
+    if ch == "U":
+        return NULL, i + 1
+    if ch == "S":
+        j = t.index(";", i)
+        return S(bytes.fromhex(t[i + 1:j]).decode("utf-8")), j + 1
+    if ch == "B":
+        j = t.index(";", i)
+        return V("builtin", t[i + 1:j]), j + 1
+    if ch == "L":
+        items = []
+        i += 2
+        if t[i] == "]":
+            return V("list", items), i + 1
+        while True:
+            v, i = parse_value(t, i)
+            items.append(v)
+            if t[i] == "]":
+                return V("list", items), i + 1
+            i += 1
+    raise ValueError("corpus value: " + t[i:i + 20])
+
+
+def corpus_cases():
+    import os
+    out = []
+    path = os.path.join(c.VERIF, "corpus", "C15", "builtin.tsv")
+    if not os.path.exists(path):
+        return out
+    for line in open(path):
+        line = line.rstrip("\n")
+        if not line or line.startswith("#"):
+            continue
+        name, mode, args = line.split("\t")
+        v, _ = parse_value(args)
+        out.append(Case(name, mode, v.p, "corpus"))
     return out
 
 
@@ -295,7 +340,7 @@ def gen_eval_cases(rng, count):
             else:
                 prog, tag = "percentile(...[%s, %s])" % (nlist(xs).src(), N(p).src()), "percentile-spread"
             a, args = "percentile", [nlist(xs), N(p)]
-        out.append((prog, a, args, tag))
+        out.append((prog, a, args, tag, xs))
     return out
 
 
@@ -416,7 +461,13 @@ def check_laws(xs, res, ps, pres):
             ref = srt[n // 2]
         else:
             ref = (srt[n // 2 - 1] + srt[n // 2]) / 2.0
-        if not (num_eq(md, ref) or (md != md and ref != ref)):
+        ok = num_eq(md, ref) or (md != md and ref != ref)
+        if not ok and n % 2 == 0 and abs(srt[n // 2 - 1]) != INF and abs(srt[n // 2]) != INF and md == md \
+                and abs(md) != INF:
+            # another correctly rounded way of taking the mean of the two middle elements is also a mean
+            mu = (fr(srt[n // 2 - 1]) + fr(srt[n // 2])) / 2
+            ok = abs(fr(md) - mu) <= 2 * U * abs(mu) + Fraction(1, 2 ** 1074)
+        if not ok:
             fails.append("median %r is not the middle order statistic / mean of the two middle ones (%r)" % (md, ref))
     # percentile: element, nearest rank, monotone, end points
     prev = None
@@ -461,7 +512,7 @@ def perm_laws(xs, res1, res2, ps, pres1, pres2):
     return fails
 
 
-def law_search(h, rng, nlists, res):
+def law_search(h, rng, nlists, res, targets=()):
     """The property itself on the implementation only (exact rational / Python-float references)."""
     jobs = []
     lines = []
@@ -470,12 +521,16 @@ def law_search(h, rng, nlists, res):
         lines.append("%s\tchecked\t%s" % (name, V("list", args).show()))
         return len(lines) - 1
 
+    todo = [(list(xs), p, "target") for xs, p in list(targets)[:200]]
     for _ in range(nlists):
         while True:
             xs, profile = gen_list(rng, nan_pct=0)
             if xs:
                 break
-        ps = sorted(set(p for p in [0.0, 100.0] + [gen_p(rng) for _ in range(4)] if 0 <= p <= 100))
+        todo.append((xs, None, profile))
+    for xs, p0, profile in todo:
+        extra = [p0] if (p0 is not None and p0 == p0) else []
+        ps = sorted(set(p for p in [0.0, 100.0] + extra + [gen_p(rng) for _ in range(4)] if 0 <= p <= 100))
         perm = rng.shuffle(xs)
         job = {"xs": xs, "perm": perm, "ps": ps, "profile": profile, "idx": {}, "pidx": [], "idx2": {}, "pidx2": []}
         for a in AGGS6:
@@ -510,7 +565,51 @@ def law_search(h, rng, nlists, res):
                                "failures": fails[:10], "observed": {"%s/%s" % k: v for k, v in r1.items()},
                                "observed_percentiles": p1,
                                "rerun": "./check C15 --replay <this file>"})
-    return len(jobs), len(lines), checked, nfail
+    # ---- the spread / separate conventions through the real parser and evaluator
+    nspread = min(len(jobs), len(list(targets)[:200]) + max(60, nlists // 4))
+    progs = []
+    for job in jobs[:nspread]:
+        progs.append(spread_program(job["xs"]))
+    pouts = [eval_result(o) for o in c.harness_lines_resilient(h, "eval", [c.hexs(p) for p in progs])]
+    nsp_fail = 0
+    for job, prog, o in zip(jobs[:nspread], progs, pouts):
+        f = spread_law(o)
+        checked += 1
+        if f:
+            nfail += 1
+            nsp_fail += 1
+            if nsp_fail <= 3:
+                res.violation("list / spread / separate calling conventions disagree on the implementation: " + f,
+                              {"kind": "spread-law", "program": prog, "observed": o, "failure": f,
+                               "rerun": "./check C15 --replay <this file>"})
+    return len(jobs), len(lines) + len(progs), checked, nfail
+
+
+def spread_program(xs):
+    l = nlist(xs).src()
+    items = []
+    for a in AGGS6:
+        items += ["%s(l)" % a, "%s(...l)" % a]
+        if len(xs) <= 8:
+            items.append("%s(%s)" % (a, ", ".join(N(x).src() for x in xs)))
+        k = len(xs) // 2
+        items.append("%s(...%s, ...%s)" % (a, nlist(xs[:k]).src(), nlist(xs[k:]).src()))
+    return "l = %s\n[%s]" % (l, ", ".join(items))
+
+
+def spread_law(o):
+    """o: eval outcome of spread_program; every aggregate's variants must be bit-equal"""
+    if not (o.startswith("OK:L[") and o.endswith("]")):
+        return "not a list of numbers: %s" % o[:200]
+    vals = o[len("OK:L["):-1].split(",")
+    per = len(vals) // len(AGGS6)
+    if per * len(AGGS6) != len(vals) or per < 3:
+        return "unexpected result shape: %s" % o[:200]
+    for i, a in enumerate(AGGS6):
+        grp = vals[i * per:(i + 1) * per]
+        if len(set(grp)) != 1:
+            return "%s: list / spread / separate / double-spread give %s" % (a, grp)
+    return None
 
 
 def replay_law(h, rp):
@@ -554,6 +653,12 @@ def replay(h, path):
     kind = rp.get("kind")
     if kind == "law":
         return replay_law(h, rp)
+    if kind == "spread-law":
+        out = eval_result(c.harness_lines_resilient(h, "eval", [c.hexs(rp["program"])])[0])
+        f = spread_law(out)
+        print("implementation now returns:", out)
+        print("law failing now:", f if f else "none")
+        return 1 if f else 0
     if kind in ("builtin", "panic"):
         out = norm_impl(c.harness_lines_resilient(h, "c15-builtin", [rp["line"]])[0])
         print("implementation now returns:", out)
@@ -610,7 +715,7 @@ def main(argv):
 
     # ---------------- BUILTIN correspondence
     quick = tier == "quick"
-    cases = gen_cases(rng, 260 if quick else 4000, 500 if quick else 6000)
+    cases = gen_cases(rng, 260 if quick else 10000, 500 if quick else 15000)
     impl = [norm_impl(o) for o in c.harness_lines_resilient(h, "c15-builtin", [cs.line() for cs in cases])]
     try:
         model = c.coq_eval_batch(REQ, "", [cs.coq() for cs in cases], "c15")
@@ -671,33 +776,32 @@ def main(argv):
                     panic_violation("the implementation panics (C01 class) on an arity-respecting aggregate call",
                                   {"kind": "panic", "line": cs.line(),
                                    "call": "%s(%s)" % (cs.name, ", ".join(a.src() for a in cs.args)), "observed": r})
+    targets = []
     if mism:
         cs, m, r = mism[0]
         res.tie_broken("correspondence C15/BUILTIN: model and implementation disagree on %d of %d cases"
                        % (len(mism), len(cases)),
                        "first: %s mode=%s args=%s ; model=%s impl=%s"
                        % (cs.name, cs.mode, V("list", cs.args).src(), m, r))
-        # a mismatch on a plain value is also a concrete input on which the implementation departs from the
-        # definition the theorems are about: report it with the model's answer as the expectation
-        for cs, m, r in mism[:3]:
-            if not (r == "PANIC" and cs.arity_ok()):
-                res.violation("aggregate result differs from the verified definition",
-                              {"kind": "builtin", "line": cs.line(),
-                               "call": "%s(%s)" % (cs.name, ", ".join(a.src() for a in cs.args)),
-                               "observed": r, "expected": m.split("|")[0] if not m.startswith("PANIC|") else m.split("|", 1)[1]})
+        # the disagreeing inputs that lie in the property's domain (non-empty NaN-free number lists) are
+        # handed to the law search: if the property itself fails there, that is the concrete violation
+        for cs, m, r in mism:
+            if cs.nums and all(x == x for x in cs.nums):
+                p = cs.args[1].p if (cs.name == "percentile" and len(cs.args) == 2 and cs.args[1].k == "num") else None
+                targets.append((cs.nums, p))
 
     # ---------------- EVAL correspondence (parser + evaluator: list / separate / spread)
-    ecases = gen_eval_cases(rng, 300 if quick else 3000)
-    eimpl = [eval_result(o) for o in c.harness_lines_resilient(h, "eval", [c.hexs(p) for p, _, _, _ in ecases])]
+    ecases = gen_eval_cases(rng, 300 if quick else 6000)
+    eimpl = [eval_result(o) for o in c.harness_lines_resilient(h, "eval", [c.hexs(e[0]) for e in ecases])]
     try:
         emodel = c.coq_eval_batch(REQ, "", ["(show_case true %s [%s])" % (COQ_AGG[a], "; ".join(x.coq() for x in args))
-                                            for _, a, args, _ in ecases], "c15e")
+                                            for _, a, args, _, _ in ecases], "c15e")
     except c.BrokenTie as e:
         res.tie_broken(e.what, e.detail)
         emodel = [None] * len(ecases)
     emism = []
     etags = {}
-    for (prog, a, args, tag), m, r in zip(ecases, emodel, eimpl):
+    for (prog, a, args, tag, exs), m, r in zip(ecases, emodel, eimpl):
         etags[tag] = etags.get(tag, 0) + 1
         if m is None:
             continue
@@ -719,9 +823,8 @@ def main(argv):
                 nontrivial.add(prog)
         else:
             emism.append((prog, m, r))
-            if len(emism) <= 3:
-                res.violation("aggregate call through the evaluator differs from the verified definition",
-                              {"kind": "eval", "program": prog, "observed": r, "expected": m})
+            if exs and all(x == x for x in exs):
+                targets.append((exs, args[1].p if a == "percentile" else None))
     if emism:
         prog, m, r = emism[0]
         res.tie_broken("correspondence C15/EVAL: model and implementation disagree on %d of %d programs"
@@ -729,8 +832,8 @@ def main(argv):
 
     # ---------------- the laws on the implementation alone
     broken = bool(res.broken)
-    nl = (400 if quick else 6000) * (3 if broken else 1)
-    njobs, nlines, nchecked, nfail = law_search(h, rng, nl, res)
+    nl = (400 if quick else 15000) * (3 if broken else 1)
+    njobs, nlines, nchecked, nfail = law_search(h, rng, nl, res, targets)
 
     # ---------------- known findings: re-run the witnesses
     for kid, e in known.items():
@@ -765,7 +868,7 @@ def main(argv):
     res.streams["BUILTIN"] = {"cases": len(cases), "mismatches": len(mism), "per_builtin": per_agg,
                               "impl_outcomes": hist, "list_lengths": lens,
                               "tags": {t: sum(1 for cs in cases if cs.tag == t) for t in
-                                       ("list", "separate", "percentile", "dot", "junk")},
+                                       ("corpus", "list", "separate", "percentile", "dot", "junk")},
                               "modes": {m_: sum(1 for cs in cases if cs.mode == m_) for m_ in ("raw", "checked")},
                               "with_nan": sum(1 for cs in cases if cs.nums and any(x != x for x in cs.nums)),
                               "known_class_hits": known_hits}
